@@ -103,7 +103,7 @@ struct Tree {
 
 static char clientStorage[16];
 
-// Oracle shared by both manager generations. `delivered` deliveries were logged by the environment while handling `t`.
+// Oracle shared by both manager generations; the environment logged the deliveries made while the stanza `t` was handled.
 static void oracle(const Tree &t, const QString &bare, bool ret, bool v1, void *mgr, QXmppClient *client, int sentIdx, int recvIdx)
 {
     unsigned nd = vp_c11_ndel();
